@@ -270,6 +270,7 @@ def requires_satisfied(arg):
 # NORMALIZE_WHITESPACE (or IGNORE_WHITESPACE), all whitespace goes under IGNORE_WHITESPACE; surrounding
 # quotes are ignorable under NORMALIZE_REPR -- and compared exactly, or with '...' as a wildcard under ELLIPSIS.
 from specs.pyfuncs import re_sub
+from pyvc.specs_support import defn
 
 ANSI_PATTERN = r'(\x9B|\x1B\[)[0-?]*[ -/]*[@-~]'
 UNICODE_PREFIX = r"(\W|^)[uU]([rR]?[\'\"])"
@@ -291,6 +292,7 @@ def strip_prefixes(text):
     return re_sub(BYTES_PREFIX, r'\1\2', 0, re_sub(UNICODE_PREFIX, r'\1\2', 0, text))
 
 
+@defn('(str) -> str')
 def visible(text):
     """Lines that end in a carriage return are overwritten on a terminal: they are dropped."""
     return ''.join([line for line in text.splitlines(True) if not line.endswith('\r')])
@@ -304,6 +306,7 @@ def delete_ws(text):
     return re_sub(r'\s', '', MULTILINE, text)
 
 
+@defn('(str, bool, Val) -> str')
 def norm_one(text, is_want, rs):
     """The per-text part of the pipeline (everything but quote normalisation)."""
     t = strip_prefixes(strip_ansi_spec(text))
@@ -317,10 +320,12 @@ def norm_one(text, is_want, rs):
     return t
 
 
+@defn('(str, str, Val) -> bool')
 def check_match(got, want, rs):
     return got == want or (rs_flag(rs, 'ELLIPSIS') and ellipsis_match(got, want))
 
 
+@defn('(str, str, Val) -> str')
 def unquote(a, b, rs):
     """a without its surrounding quotes if that (and only that) makes it match b."""
     if check_match(a, b, rs):
@@ -332,6 +337,7 @@ def unquote(a, b, rs):
     return a
 
 
+@defn('(str, str, Val) -> str')
 def norm_got(got, want, rs):
     g = norm_one(got, False, rs)
     if rs_flag(rs, 'NORMALIZE_REPR'):
@@ -339,6 +345,7 @@ def norm_got(got, want, rs):
     return g
 
 
+@defn('(str, str, Val) -> str')
 def norm_want(got, want, rs):
     w = norm_one(want, True, rs)
     if rs_flag(rs, 'NORMALIZE_REPR'):
@@ -346,6 +353,7 @@ def norm_want(got, want, rs):
     return w
 
 
+@defn('(str, str, Val) -> bool')
 def match_def(got, want, rs):
     """The relation of C05 (the uninterpreted S.match used by C02/C03 abstracts this definition)."""
     if want == '':
